@@ -280,19 +280,7 @@ func ruleR11(c *Ctx) {
 func ruleR13(c *Ctx) {
 	info := c.m.Info
 	m := c.m
-	yieldsOf := func(u *FuncUnit) (yv *types.Var, calls []*ast.CallExpr) {
-		if u.Type.Params == nil || len(u.Type.Params.List) != 1 || len(u.Type.Params.List[0].Names) != 1 {
-			return
-		}
-		yv, _ = info.Defs[u.Type.Params.List[0].Names[0]].(*types.Var)
-		ast.Inspect(u.Body, func(n ast.Node) bool {
-			if call, ok := n.(*ast.CallExpr); ok && identVar(info, call.Fun) == yv && yv != nil {
-				calls = append(calls, call)
-			}
-			return true
-		})
-		return
-	}
+	yieldsOf := func(u *FuncUnit) (*types.Var, []*ast.CallExpr) { return yieldCallsOf(info, u) }
 	for _, u := range c.seqLiterals() {
 		parent := u.Parent
 		if parent == nil {
@@ -317,6 +305,15 @@ func ruleR13(c *Ctx) {
 				continue
 			}
 			lower, upper := pnames[1], pnames[2]
+			if sr := c.scanRoles(); sr.structMode {
+				// the bounds arrive in a struct: the variables the leaf key is compared with under
+				// the yield, each traced back to a field of the parameter (scanroles.go)
+				lower, upper = sr.lowerVar, sr.upperVar
+				if lower == nil || upper == nil || lower == upper {
+					c.r.bad("R13", "rangeScan yield within bounds", m.pos(parent.Decl.Pos()), "the bounds are handed over in a struct and the yield is not dominated by comparisons of the stored key with two of its fields (stored key >= one, <= another): keys outside the requested bounds can be yielded", props...)
+					continue
+				}
+			}
 			// keyRel: the relation "stored key REL bound" that holds on a guard edge, for
 			//   bytes.Compare(a, b) OP 0 (either operand order, 0 on either side), with a or b the
 			//   leaf's getKey() – directly or through a local bound once – and the other a bound
@@ -331,6 +328,9 @@ func ruleR13(c *Ctx) {
 				return isSel && sel.Sel.Name == "getKey"
 			}
 			boundOf := func(e ast.Expr) *types.Var {
+				if v := identVar(info, ast.Unparen(e)); v == lower || v == upper {
+					return v // the bound itself (a local of rangeScan filled from a field of its parameter)
+				}
 				v := identVar(info, ast.Unparen(m.throughLocals(u, e)))
 				if v == lower || v == upper {
 					return v
@@ -338,7 +338,7 @@ func ruleR13(c *Ctx) {
 				return nil
 			}
 			keyRel := func(gd guard) (bound *types.Var, rel string) {
-				be, isBe := ast.Unparen(gd.atom.e).(*ast.BinaryExpr)
+				be, isBe := ast.Unparen(c.expandPredicate(gd.atom.e)).(*ast.BinaryExpr)
 				if !isBe {
 					return nil, ""
 				}
@@ -429,14 +429,38 @@ func ruleR13(c *Ctx) {
 				}
 				ast.Inspect(ru.Body, func(n ast.Node) bool {
 					call, ok := n.(*ast.CallExpr)
-					if !ok || m.calleeName(call) != "rangeScan" || len(call.Args) < 3 {
+					if !ok || m.calleeName(call) != "rangeScan" || len(call.Args) < 2 {
 						return true
 					}
-					a, b := identVar(info, call.Args[1]), identVar(info, call.Args[2])
+					sr := c.scanRoles()
+					var a, b *types.Var
+					if sr.okA {
+						a, b = identVar(info, c.boundArgAt(ru, call, sr.lowA)), identVar(info, c.boundArgAt(ru, call, sr.upA))
+					}
 					key := tk.Name + ".Range passes ordered bounds"
 					if a == nil || b == nil {
 						c.r.undecided("R13", key, m.pos(call.Pos()), "bounds are not plain variables", "C03")
 						return true
+					}
+					// the pair that steers the descent belongs to the same two bounds, in the same order
+					if sr.okB {
+						la, ua := identVar(info, c.boundArgAt(ru, call, sr.lowB)), identVar(info, c.boundArgAt(ru, call, sr.upB))
+						k2 := tk.Name + ".Range steers the descent by the bounds it compares the keys with"
+						if la != nil && ua != nil {
+							src := func(v *types.Var) *types.Var {
+								if _, isTP := types.Unalias(v.Type()).(*types.TypeParam); isTP && c.enclosingParam(ru, v) {
+									return v
+								}
+								return c.keyParamSource(ru, v)
+							}
+							sa, sb, sla, sua := src(a), src(b), src(la), src(ua)
+							switch {
+							case (la == a || (sa != nil && sa == sla)) && (ua == b || (sb != nil && sb == sua)):
+								c.r.ok("R13", k2, m.pos(call.Pos()), fmt.Sprintf("lower pair (%s, %s) and upper pair (%s, %s) each come from one bound", a.Name(), la.Name(), b.Name(), ua.Name()), "C03", "C09")
+							case sa != nil && sla != nil && sb != nil && sua != nil:
+								c.r.bad("R13", k2, m.pos(call.Pos()), fmt.Sprintf("the stored keys are compared with (%s, %s), computed from (%s, %s), but the descent is steered by (%s, %s), computed from (%s, %s): subtrees that hold keys within the bounds are skipped", a.Name(), b.Name(), sa.Name(), sb.Name(), la.Name(), ua.Name(), sla.Name(), sua.Name()), "C03", "C09")
+							}
+						}
 					}
 					if why := c.orderedBefore(ru, call, a, b); why != "" {
 						c.r.ok("R13", key, m.pos(call.Pos()), why, "C03", "C09")
@@ -721,55 +745,7 @@ func (c *Ctx) orderedBefore(u *FuncUnit, call *ast.CallExpr, a, b *types.Var) st
 	info := c.m.Info
 	// variables a and b are derived from (Transform(start), Transform(end)): accept a swap of
 	// either pair, as long as the swap is `if X > Y { X, Y = Y, X }` (or bytes.Compare(X,Y) > 0)
-	srcOf := func(v *types.Var) *types.Var {
-		// key-typed parameters that v is (transitively) computed from
-		seen := map[*types.Var]bool{v: true}
-		srcs := map[*types.Var]bool{}
-		for changed := true; changed; {
-			changed = false
-			ast.Inspect(u.Body, func(n ast.Node) bool {
-				as, ok := n.(*ast.AssignStmt)
-				if !ok {
-					return true
-				}
-				hit := false
-				for _, l := range as.Lhs {
-					if lv := identVar(info, l); lv != nil && seen[lv] {
-						hit = true
-					}
-				}
-				if !hit {
-					return true
-				}
-				for _, r := range as.Rhs {
-					ast.Inspect(r, func(z ast.Node) bool {
-						id, ok := z.(*ast.Ident)
-						if !ok {
-							return true
-						}
-						pv, _ := info.ObjectOf(id).(*types.Var)
-						if pv == nil || pv.IsField() {
-							return true
-						}
-						if _, isTP := types.Unalias(pv.Type()).(*types.TypeParam); isTP && c.enclosingParam(u, pv) {
-							srcs[pv] = true
-						} else if !seen[pv] && pv.Pos() >= u.Body.Pos() && pv.Pos() <= u.Body.End() {
-							seen[pv] = true
-							changed = true
-						}
-						return true
-					})
-				}
-				return true
-			})
-		}
-		if len(srcs) == 1 {
-			for s := range srcs {
-				return s
-			}
-		}
-		return nil
-	}
+	srcOf := func(v *types.Var) *types.Var { return c.keyParamSource(u, v) }
 	pairs := [][2]*types.Var{{a, b}}
 	if sa, sb := srcOf(a), srcOf(b); sa != nil && sb != nil {
 		pairs = append(pairs, [2]*types.Var{sa, sb})
@@ -880,7 +856,7 @@ func ruleR39R40(c *Ctx) {
 		}
 		var allowed []edge
 		for _, gd := range guards {
-			e := ast.Unparen(gd.atom.e)
+			e := ast.Unparen(c.expandPredicate(gd.atom.e))
 			// yield returned false
 			if call, ok := e.(*ast.CallExpr); ok && identVar(info, call.Fun) == yv && !gd.atom.val {
 				allowed = append(allowed, edge{gd.b, gd.succ, "yield returned false"})
@@ -1148,4 +1124,76 @@ func (c *Ctx) unitHolding(u *FuncUnit, n ast.Node) *FuncUnit {
 		}
 	}
 	return best
+}
+
+// yieldCallsOf: the yield parameter of a sequence literal and its calls.
+func yieldCallsOf(info *types.Info, u *FuncUnit) (yv *types.Var, calls []*ast.CallExpr) {
+	if u.Type == nil || u.Type.Params == nil || len(u.Type.Params.List) != 1 || len(u.Type.Params.List[0].Names) != 1 {
+		return
+	}
+	yv, _ = info.Defs[u.Type.Params.List[0].Names[0]].(*types.Var)
+	ast.Inspect(u.Body, func(n ast.Node) bool {
+		if call, ok := n.(*ast.CallExpr); ok && identVar(info, call.Fun) == yv && yv != nil {
+			calls = append(calls, call)
+		}
+		return true
+	})
+	return
+}
+
+// keyParamSource: the one key-typed parameter of u that v is (transitively) computed from.
+func (c *Ctx) keyParamSource(u *FuncUnit, v *types.Var) *types.Var {
+	info := c.m.Info
+	// key-typed parameters that v is (transitively) computed from
+	seen := map[*types.Var]bool{v: true}
+	srcs := map[*types.Var]bool{}
+	for changed := true; changed; {
+		changed = false
+		ast.Inspect(u.Body, func(n ast.Node) bool {
+			as, ok := n.(*ast.AssignStmt)
+			if !ok {
+				return true
+			}
+			hit := false
+			hitAt := map[int]bool{}
+			for i, l := range as.Lhs {
+				if lv := identVar(info, l); lv != nil && seen[lv] {
+					hit = true
+					hitAt[i] = true
+				}
+			}
+			if !hit {
+				return true
+			}
+			for i, r := range as.Rhs {
+				if len(as.Lhs) == len(as.Rhs) && !hitAt[i] {
+					continue // a, b := f(x), f(y): a comes from x only
+				}
+				ast.Inspect(r, func(z ast.Node) bool {
+					id, ok := z.(*ast.Ident)
+					if !ok {
+						return true
+					}
+					pv, _ := info.ObjectOf(id).(*types.Var)
+					if pv == nil || pv.IsField() {
+						return true
+					}
+					if _, isTP := types.Unalias(pv.Type()).(*types.TypeParam); isTP && c.enclosingParam(u, pv) {
+						srcs[pv] = true
+					} else if !seen[pv] && pv.Pos() >= u.Body.Pos() && pv.Pos() <= u.Body.End() {
+						seen[pv] = true
+						changed = true
+					}
+					return true
+				})
+			}
+			return true
+		})
+	}
+	if len(srcs) == 1 {
+		for s := range srcs {
+			return s
+		}
+	}
+	return nil
 }
